@@ -39,6 +39,31 @@ def worker_init():
 
 # ------------------------------------------------------------------ implementation adapter
 
+class _Slow(Exception):
+    pass
+
+
+def _with_alarm(seconds, fn, *a):
+    """run fn(*a) under a CPU-time budget (the pure-Python nauty search is exponential on highly symmetric reactant graphs,
+    e.g. a duplicated large fragment; speed is not part of the property: such cases are counted, not judged)"""
+    import signal
+
+    def _h(*_):
+        raise _Slow()
+    # CPU time of this process, not wall time: the decision does not depend on the load of the machine
+    old = signal.signal(signal.SIGVTALRM, _h)
+    signal.setitimer(signal.ITIMER_VIRTUAL, seconds)
+    try:
+        return fn(*a)
+    finally:
+        signal.setitimer(signal.ITIMER_VIRTUAL, 0)
+        signal.signal(signal.SIGVTALRM, old)
+
+
+SLOW_IMPL_S = 20
+SLOW_MODEL_S = 3
+
+
 def _canon(rsmi, be):
     from synkit.Chem.Reaction.canon_rsmi import CanonRSMI
     return CanonRSMI(backend=be).canonicalise(rsmi)
@@ -64,7 +89,9 @@ def _impl_canon(case):
         return ["unparsable"]
     c = CanonRSMI(backend=case["backend"])
     try:
-        c.canonicalise(case["rsmi"])
+        _with_alarm(SLOW_IMPL_S, c.canonicalise, case["rsmi"])
+    except _Slow:
+        return ["slow"]
     except ValueError as e:
         if "node_map must be non-empty" in str(e):
             return [-1]
@@ -199,6 +226,11 @@ def coq_case(case):
                 return "run_canon_wl %s %s %s" % (ranks, E.coq_mgraph(g), E.coq_mgraph(h))
             if len(g["nodes"]) > NAUTY_MAX_ATOMS:
                 return None
+            try:        # the model mirrors the search: skip the graphs on which the search itself is slow
+                from synkit.Graph.canon_graph import GraphCanonicaliser
+                _with_alarm(SLOW_MODEL_S, GraphCanonicaliser(backend="nauty")._canon_nauty, gh[0])
+            except _Slow:
+                return None
             return "run_canon_nauty %s %s" % (E.coq_mgraph(g), E.coq_mgraph(h))
         if k.startswith("valid-"):
             gs = [_valid_graphs(case["mapped"]), _valid_graphs(case["truth"])]
@@ -247,6 +279,8 @@ def _oracle_canon(case):
                 fails.append(_fail("monitor-parsed", "raw %s graph of %r: node id <> atom_map or <= 0 at %r / self-loop" % (side, r, bad[:5])))
     try:
         out = _canon(r, be).canonical_rsmi
+    except _Slow:
+        raise
     except Exception as e:
         if not set(I_in.nodes):
             return []
@@ -268,6 +302,8 @@ def _oracle_canon(case):
     # 3. fixed point
     try:
         out2 = _canon(out, be).canonical_rsmi
+    except _Slow:
+        raise
     except Exception as e:
         out2 = "%s: %s" % (type(e).__name__, e)
     if out2 != out:
@@ -279,6 +315,8 @@ def _oracle_canon(case):
         if dist and (be != "wl" or G9.wl_colours_distinct(a0)):
             try:
                 out0 = _canon(case["orig"], be).canonical_rsmi
+            except _Slow:
+                raise
             except Exception as e:
                 out0 = "%s: %s" % (type(e).__name__, e)
             if out0 != out:
@@ -351,7 +389,10 @@ def oracle(case):
     worker_init()
     k = case["kind"]
     if k.startswith("canon-"):
-        return _oracle_canon(case)[:3]
+        try:
+            return _with_alarm(3 * SLOW_IMPL_S, _oracle_canon, case)[:3]
+        except _Slow:
+            return []
     if k.startswith("valid-"):
         return _oracle_valid(case)[:3]
     if k.startswith("bal-"):
@@ -374,7 +415,7 @@ def nontrivial(case, obs):
 
 def distribution(cases, obss):
     d = {"validator_RC": {}, "validator_ITS_modelled": {}, "balance": {}, "canon_sizes": {}, "canon_backend": {}}
-    outside = dict(nauty_too_big=0, its_too_big=0)
+    outside = dict(nauty_too_big=0, its_too_big=0, implementation_slow=0)
     for c, o in zip(cases, obss):
         k = c["kind"]
         if k.startswith("valid-") and isinstance(o, list) and o and o[0] != "unparsable" and o[0] != "EXC":
@@ -388,6 +429,8 @@ def distribution(cases, obss):
         elif k.startswith("bal-") and isinstance(o, list) and o and o[0] in (True, False):
             key = "%s:%s" % (k, o[0])
             d["balance"][key] = d["balance"].get(key, 0) + 1
+        elif k.startswith("canon-") and o == ["slow"]:
+            outside["implementation_slow"] += 1
         elif k.startswith("canon-") and isinstance(o, list) and len(o) == 3:
             n = len(o[0][0]["__set__"])
             key = "<=10" if n <= 10 else ("11-30" if n <= 30 else ("31-45" if n <= 45 else "46+"))
@@ -479,7 +522,9 @@ def gen_cases(tier, rng):
         extra += [(h, v) for h, v in G9.unbalanced_variants(r, rng) if h in ("del", "dup")]
         for how, v in extra:
             if v is not None and (not q or rng.random() < 0.5):
-                cases += _canon_cases(how, v, orig=r, src=src, backends=(rng.choice(BACKENDS),))
+                be = rng.choice(BACKENDS)
+                # a duplicated fragment makes the reactant graph highly symmetric: the pure-Python nauty search can take minutes
+                cases += _canon_cases(how, v, orig=r, src=src, backends=("wl",) if how == "dup" else (be,))
 
     # corpus reactions with a product atom that has no reactant partner (a released proton): the repaired path on real data
     if q:
